@@ -114,7 +114,7 @@ theorem feedS_line (cfg : Cfg) (st : State) (l : Bytes) (hb : SBase cfg st.s) (h
     (hres : (handle real st.s.srv l).res = .ok) (hna : (handle real st.s.srv l).srv.authenticated = false) :
     lstepS st =
       { st with s := (st.s.handled l (handle real st.s.srv l)).setBuf [], c2s := [],
-                s2c := st.s2c ++ wireS (handle real st.s.srv l).sent, fedS := st.fedS ++ st.c2s } := by
+                s2c := st.s2c ++ wireS (handle real st.s.srv l).sent } := by
   unfold lstepS feedS
   have h := srv_complete st.s st.c2s l hb.alive hb.unauth hb.first hb.open_ hl hlen (by rw [hb.buf, hq]; rfl) hres hna
   simp only [h]
@@ -132,7 +132,7 @@ theorem feedC_line (cfg : Cfg) (st : State) (l r : Bytes) (a a' : AuthClient.Aut
     lstepC cfg st =
       { st with c := { st.c with seen := st.c.seen + 1, auth := a',
                                  trace := st.c.trace ++ [Ev.recv l] ++ [r].map Ev.send },
-                s2c := [], c2s := st.c2s ++ (r ++ [13, 10]), fedC := st.fedC ++ st.s2c } := by
+                s2c := [], c2s := st.c2s ++ (r ++ [13, 10]) } := by
   unfold lstepC feedC
   have h1 := cli_complete (fun _ => envOf cfg st.s.srv.world) st.c st.s2c l hb.unauth hl (by rw [hb.buf, hq]; rfl)
   have hbuf : ({ st.c with buffer := [] } : CProto) = st.c := by
@@ -154,7 +154,7 @@ theorem feedC_success (cfg : Cfg) (st : State) (l r : Bytes) (a a' : AuthClient.
     lstepC cfg st =
       { st with c := { st.c with seen := st.c.seen + 1, auth := a', authenticated := true, buffer := [], binary := [],
                                  trace := st.c.trace ++ [Ev.recv l] ++ [r].map Ev.send ++ [Ev.authenticated] },
-                s2c := [], c2s := st.c2s ++ (r ++ 13 :: 10 :: cfg.hello), fedC := st.fedC ++ st.s2c } := by
+                s2c := [], c2s := st.c2s ++ (r ++ 13 :: 10 :: cfg.hello) } := by
   unfold lstepC feedC
   have h1 := cli_complete (fun _ => envOf cfg st.s.srv.world) st.c st.s2c l hb.unauth hl (by rw [hb.buf, hq]; rfl)
   have hbuf : ({ st.c with buffer := [] } : CProto) = st.c := by
@@ -293,6 +293,13 @@ theorem o2_cases {cfg : Cfg} (hyp : Hyp cfg) {m w1 c1} (h : O1Challenge cfg m w1
     refine ⟨?_, w', none, by rw [ho2]; simp only [hrej], fun n hn => by simp at hn⟩
     unfold keyringUsable
     rw [hch, ho2]; rfl
+
+theorem o1_def (cfg : Cfg) : o1 cfg = handle real (srv1 cfg) (cookieAuthLine cfg.user) := rfl
+theorem o2_def (cfg : Cfg) : o2 cfg = handle real (o1 cfg).srv (reply cfg) := rfl
+
+-- from here on the two answers of the bus and the client's answer are opaque: only the case lemmas above are used
+-- (a definitional unfolding of `handle` inside a unification problem does not terminate in reasonable time)
+attribute [irreducible] o1 o2 reply chalLine
 
 /-! ## the phases of the conversation -/
 
@@ -685,5 +692,199 @@ theorem next_negErr {cfg : Cfg} (st : State) (i : Nat) (g : Bytes) (hu : cfg.uni
   · rw [k4, ← hs.idx]; exact authAt_mech cfg.unix i
   · rw [k1, ← hs.idx]; exact hs
 
+/-- REJECTED (EXTERNAL) reaches the client: `AUTH DBUS_COOKIE_SHA1 <hex user>`. -/
+theorem next_rej0 {cfg : Cfg} (hyp : Hyp cfg) (st : State) (h0 : credsOk cfg = false)
+    (hc : CBase st.c (authAt cfg.unix 0)) (hb : SBase cfg st.s) (hs : st.s.srv = srv1 cfg)
+    (ha : accepts st.s.log = []) (q1 : st.s2c = AuthServer.rejectLine real ++ [13, 10]) (q2 : st.c2s = []) :
+    Next cfg 11 (lstepC cfg st) := by
+  left
+  have hh := cl_rejected (envOf cfg st.s.srv.world) cfg.unix 0 (by decide)
+  rw [authLine_cookie] at hh
+  obtain ⟨k1, k2, k3, k4⟩ := cli_step cfg st _ _ _ _ hc q1 q2 clean_const.2.2.2.2.2.1.1
+    (by have := clean_const.2.2.2.2.2.1.2; rw [maxAuth_eq]; omega) hh (authAt_flags cfg.unix 1).1
+    (cookieAuthLine_ne_begin _)
+  exact ⟨10, by decide, Phase.auth1 _ h0 k2 (k1 ▸ hb) (by rw [k1]; exact hs) (by rw [k1]; exact ha) k4 k3⟩
+
+/-- `AUTH DBUS_COOKIE_SHA1` reaches the bus: REJECTED, or the challenge. -/
+theorem next_auth1 {cfg : Cfg} (hyp : Hyp cfg) (st : State) (h0 : credsOk cfg = false)
+    (hc : CBase st.c (authAt cfg.unix 1)) (hb : SBase cfg st.s) (hs : st.s.srv = srv1 cfg)
+    (ha : accepts st.s.log = []) (q1 : st.c2s = cookieAuthLine cfg.user ++ [13, 10]) (q2 : st.s2c = []) :
+    Next cfg 10 (lstepS st) := by
+  left
+  have ho : handle real st.s.srv (cookieAuthLine cfg.user) = o1 cfg := by rw [hs, o1_def]
+  have hcl := clean_cookieAuth hyp
+  rcases o1_cases cfg with ⟨hch, w', mm, h1, hm⟩ | ⟨hch, m, w1, c1, h1⟩
+  · obtain ⟨k1, k2, k3, k4, k5, k6, k7⟩ := srv_step cfg st _ _ hb q1 q2 hcl.1 (by rw [maxAuthLength_eq]; exact hcl.2)
+      ho (by rw [h1]) (by rw [h1]; rfl) (by rw [h1]; rfl)
+    have hku : keyringUsable cfg = false := by unfold keyringUsable; rw [hch]; rfl
+    refine ⟨7, by decide, Phase.rej1 _ h0 hku (k1 ▸ hc) k2 ?_ ?_ (by rw [k7, h1]; rfl) k6⟩
+    · rw [k3, h1]; exact ⟨rfl, rfl⟩
+    · rw [k4, accepts_snoc, ha, h1]; exact accepts_tail_nil hm
+  · obtain ⟨k1, k2, k3, k4, k5, k6, k7⟩ := srv_step cfg st _ _ hb q1 q2 hcl.1 (by rw [maxAuthLength_eq]; exact hcl.2)
+      ho (by rw [h1.1]) (by rw [h1.1]; rfl) (by rw [h1.1]; rfl)
+    refine ⟨9, by decide, Phase.ckChal _ h0 m w1 c1 h1 (k1 ▸ hc) k2 k3 ?_ ?_ k6⟩
+    · rw [k4, accepts_snoc, ha, h1.1]; rfl
+    · rw [k7, chalLine_eq h1, h1.1]; rfl
+
+/-- The challenge reaches the client: the response, or ERROR. -/
+theorem next_ckChal {cfg : Cfg} (hyp : Hyp cfg) (st : State) (h0 : credsOk cfg = false) (m : Bytes) (w1 : RealWorld)
+    (c1 : AuthServer.CookieSt) (ho : O1Challenge cfg m w1 c1) (hc : CBase st.c (authAt cfg.unix 1))
+    (hb : SBase cfg st.s) (hs : st.s.srv = (o1 cfg).srv) (ha : accepts st.s.log = [])
+    (q1 : st.s2c = chalLine cfg ++ [13, 10]) (q2 : st.c2s = []) : Next cfg 9 (lstepC cfg st) := by
+  left
+  have hw : st.s.srv.world = w1 := by rw [hs]; exact o1_world ho
+  have hh := (reply_spec ho).1
+  rw [← hw] at hh
+  have hcl := clean_chal hyp ho
+  have hcr := clean_reply hyp ho
+  obtain ⟨k1, k2, k3, k4⟩ := cli_step cfg st _ _ _ _ hc q1 q2 hcl.1 (by rw [maxAuth_eq]; exact hcl.2) hh
+    (authAt_flags cfg.unix 1).1 hcr.2.2
+  exact ⟨8, by decide, Phase.ckResp _ h0 m w1 c1 ho k2 (k1 ▸ hb) (by rw [k1]; exact hs) (by rw [k1]; exact ha) k4 k3⟩
+
+/-- The client's answer reaches the bus: OK, or REJECTED. -/
+theorem next_ckResp {cfg : Cfg} (hyp : Hyp cfg) (st : State) (h0 : credsOk cfg = false) (m : Bytes) (w1 : RealWorld)
+    (c1 : AuthServer.CookieSt) (ho : O1Challenge cfg m w1 c1) (hc : CBase st.c (authAt cfg.unix 1))
+    (hb : SBase cfg st.s) (hs : st.s.srv = (o1 cfg).srv) (ha : accepts st.s.log = [])
+    (q1 : st.c2s = reply cfg ++ [13, 10]) (q2 : st.s2c = []) : Next cfg 8 (lstepS st) := by
+  left
+  have hh : handle real st.s.srv (reply cfg) = o2 cfg := by rw [hs, o2_def]
+  have hcr := clean_reply hyp ho
+  have hua : (o1 cfg).srv.authenticated = false := by rw [ho.1]; rfl
+  have hgu : (o1 cfg).srv.serverGuid = cfg.guid := by rw [ho.1]; rfl
+  rcases o2_cases hyp ho with ⟨hku, w2, c2, u, h2, hu⟩ | ⟨hku, w', mm, h2, hm⟩
+  · obtain ⟨k1, k2, k3, k4, k5, k6, k7⟩ := srv_step cfg st _ _ hb q1 q2 hcr.1 (by rw [maxAuthLength_eq]; exact hcr.2.1)
+      hh (by rw [h2]) (by rw [h2]; exact hua) (by rw [h2]; exact hgu)
+    refine ⟨5, by decide, Phase.okSent _ 1 (k1 ▸ hc)
+      ⟨k2, by rw [k3, h2], ?_, ?_, ?_, (expectedMech_1 h0 hku).symm⟩ (by rw [k7, h2]; rfl) k6⟩
+    · exact ⟨lit "DBUS_COOKIE_SHA1", .cookie c2, u, by rw [k3, h2], by rw [k3, h2]; exact hu⟩
+    · rw [k4, accepts_snoc, ha, h2, lit_consts.2.2.2.2.1]; rfl
+    · rw [k5, h2]; simp
+  · obtain ⟨k1, k2, k3, k4, k5, k6, k7⟩ := srv_step cfg st _ _ hb q1 q2 hcr.1 (by rw [maxAuthLength_eq]; exact hcr.2.1)
+      hh (by rw [h2]) (by rw [h2]; exact hua) (by rw [h2]; exact hgu)
+    refine ⟨7, by decide, Phase.rej1 _ h0 hku (k1 ▸ hc) k2 ?_ ?_ (by rw [k7, h2]; rfl) k6⟩
+    · rw [k3, h2]; exact ⟨rfl, rfl⟩
+    · rw [k4, accepts_snoc, ha, h2]; exact accepts_tail_nil hm
+
+/-- REJECTED (DBUS_COOKIE_SHA1) reaches the client: `AUTH ANONYMOUS 747864627573`. -/
+theorem next_rej1 {cfg : Cfg} (st : State) (h0 : credsOk cfg = false) (h1 : keyringUsable cfg = false)
+    (hc : CBase st.c (authAt cfg.unix 1)) (hb : SBase cfg st.s)
+    (hs : st.s.srv.state = .waitingForAuth ∧ st.s.srv.rejects = 2) (ha : accepts st.s.log = [])
+    (q1 : st.s2c = AuthServer.rejectLine real ++ [13, 10]) (q2 : st.c2s = []) : Next cfg 7 (lstepC cfg st) := by
+  left
+  have hh := cl_rejected (envOf cfg st.s.srv.world) cfg.unix 1 (by decide)
+  rw [authLine_anon] at hh
+  obtain ⟨k1, k2, k3, k4⟩ := cli_step cfg st _ _ _ _ hc q1 q2 clean_const.2.2.2.2.2.1.1
+    (by have := clean_const.2.2.2.2.2.1.2; rw [maxAuth_eq]; omega) hh (authAt_flags cfg.unix 2).1 (by decide)
+  exact ⟨6, by decide, Phase.auth2 _ h0 h1 k2 (k1 ▸ hb) (by rw [k1]; exact hs) (by rw [k1]; exact ha) k4 k3⟩
+
+/-- `AUTH ANONYMOUS` reaches the bus: OK. -/
+theorem next_auth2 {cfg : Cfg} (st : State) (h0 : credsOk cfg = false) (h1 : keyringUsable cfg = false)
+    (hc : CBase st.c (authAt cfg.unix 2)) (hb : SBase cfg st.s)
+    (hs : st.s.srv.state = .waitingForAuth ∧ st.s.srv.rejects = 2) (ha : accepts st.s.log = [])
+    (q1 : st.c2s = AuthServer.authLineOf (lit "ANONYMOUS") (some (lit "txdbus")) ++ [13, 10]) (q2 : st.s2c = []) :
+    Next cfg 6 (lstepS st) := by
+  left
+  have ho := sv_auth_anon st.s.srv hs.1
+  have hg : st.s.srv.serverGuid = cfg.guid := hb.guid
+  obtain ⟨k1, k2, k3, k4, k5, k6, k7⟩ := srv_step cfg st _ _ hb q1 q2 clean_const.2.2.2.2.2.2.1.1
+    (by have := clean_const.2.2.2.2.2.2.1.2; rw [maxAuthLength_eq]; omega) ho rfl
+    (by show st.s.srv.authenticated = false; exact hb.srvUnauth) (by show st.s.srv.serverGuid = cfg.guid; exact hg)
+  refine ⟨5, by decide, Phase.okSent _ 2 (k1 ▸ hc)
+    ⟨k2, by rw [k3], ?_, ?_, ?_, (expectedMech_2 h0 h1).symm⟩ (by rw [k7, hg]; rfl) k6⟩
+  · exact ⟨lit "ANONYMOUS", .anon, AuthServer.anonymousUser, by rw [k3], by rw [k3]; rfl⟩
+  · rw [k4, accepts_snoc, ha, lit_consts.2.2.2.2.2]; rfl
+  · rw [k5, hg]; simp
+
+/-! ## the first read of the bus -/
+
+/-- The state after the bus has read exactly the NUL byte. -/
+def nulRead (st : State) : State :=
+  { st with s := st.s.dropFirst, c2s := st.c2s.tail }
+
+theorem init_proto_facts (cfg : Cfg) :
+    (AuthServer.Proto.init cfg.guid cfg.w0 : SProto).crashed = false ∧
+    (AuthServer.Proto.init cfg.guid cfg.w0 : SProto).authenticated = false ∧
+    (AuthServer.Proto.init cfg.guid cfg.w0 : SProto).firstByte = true ∧
+    (AuthServer.Proto.init cfg.guid cfg.w0 : SProto).buffer = [] := ⟨rfl, rfl, rfl, rfl⟩
+
+/-- After the NUL byte the conversation is in phase `auth0`. -/
+theorem nulRead_phase {cfg : Cfg} (st : State) (hc : CBase st.c (authAt cfg.unix 0))
+    (hs : st.s = AuthServer.Proto.init cfg.guid cfg.w0)
+    (q1 : st.c2s = 0 :: (lit "AUTH EXTERNAL" ++ [13, 10])) (q2 : st.s2c = []) : Phase cfg 12 (nulRead st) := by
+  refine Phase.auth0 _ hc ?_ ?_ ?_ ?_ q2
+  · show SBase cfg st.s.dropFirst
+    rw [hs]; exact ⟨rfl, rfl, rfl, rfl, rfl, rfl, rfl, rfl⟩
+  · show st.s.dropFirst.srv = srv0 cfg
+    rw [hs]; rfl
+  · show accepts st.s.dropFirst.log = []
+    rw [hs]; rfl
+  · show st.c2s.tail = _
+    rw [q1]; rfl
+
+/-- Reading the NUL byte together with `d` is reading `d` after the NUL byte. -/
+theorem feedS_nul {cfg : Cfg} (st : State) (hs : st.s = AuthServer.Proto.init cfg.guid cfg.w0) (d rest : Bytes) :
+    feedS st (0 :: d) rest = (if d = [] then { nulRead st with c2s := rest } else feedS (nulRead st) d rest) := by
+  have hf := init_proto_facts cfg
+  unfold feedS
+  rw [srv_first st.s d (hs ▸ hf.1) (hs ▸ hf.2.1) (hs ▸ hf.2.2.1)]
+  by_cases hd : d = []
+  · subst hd
+    simp only [if_true]
+    rw [srv_first_only st.s (hs ▸ hf.2.2.2)]
+    simp [nulRead, AuthServer.Proto.dropFirst, wireS]
+  · simp only [hd, if_false]
+    have : AuthServer.recv real (nulRead st).s d = AuthServer.recvLines real st.s.dropFirst d := by
+      show AuthServer.recv real st.s.dropFirst d = _
+      exact AuthServer.recv_lines real _ d (by rw [hs]; rfl) (by rw [hs]; rfl) rfl
+    simp only [this]
+    simp [nulRead, AuthServer.Proto.dropFirst]
+
+/-! ## every phase has a successor -/
+
+/-- Deliver the line in flight. -/
+def lstep (cfg : Cfg) (st : State) : State :=
+  match st.c2s with
+  | [] => lstepC cfg st
+  | _ :: _ => lstepS st
+
+theorem lstep_toS {cfg : Cfg} {st : State} {l : Bytes} (q : st.c2s = l ++ [13, 10]) : lstep cfg st = lstepS st := by
+  unfold lstep
+  cases hl : st.c2s with
+  | nil => rw [hl] at q; cases l <;> cases q
+  | cons _ _ => rfl
+
+theorem lstep_toC {cfg : Cfg} {st : State} (q : st.c2s = []) : lstep cfg st = lstepC cfg st := by
+  unfold lstep; rw [q]
+
+/-- Delivering the line in flight leads to a phase of smaller rank, or to the client's BEGIN. -/
+theorem phase_next {cfg : Cfg} (hyp : Hyp cfg) {r : Nat} {st : State} (hp : Phase cfg r st) :
+    Next cfg r (lstep cfg st) := by
+  cases hp with
+  | start _ hc hs q1 q2 =>
+    have h1 : lstep cfg st = lstepS (nulRead st) := by
+      unfold lstep lstepS
+      rw [q1]
+      simp only
+      rw [feedS_nul st hs]
+      have : (nulRead st).c2s = lit "AUTH EXTERNAL" ++ [13, 10] := by show st.c2s.tail = _; rw [q1]; rfl
+      rw [this, if_neg (by decide)]
+    rw [h1]
+    cases nulRead_phase st hc hs q1 q2 with
+    | auth0 _ hc' hb' hs' ha' q1' q2' =>
+      rcases next_auth0 _ hc' hb' hs' ha' q1' q2' with ⟨r', hr, hp'⟩ | hb
+      · exact Or.inl ⟨r', by omega, hp'⟩
+      · exact Or.inr hb
+  | auth0 _ hc hb hs ha q1 q2 => rw [lstep_toS q1]; exact next_auth0 _ hc hb hs ha q1 q2
+  | extChal _ uid e h1 h2 hc hb hs ha q1 q2 => rw [lstep_toC q2]; exact next_extChal _ uid e h1 h2 hc hb hs ha q1 q2
+  | extResp _ uid e h1 h2 hc hb hs ha q1 q2 => rw [lstep_toS q1]; exact next_extResp _ uid e h1 h2 hc hb hs ha q1 q2
+  | okSent _ i hc hs q1 q2 => rw [lstep_toC q2]; exact next_okSent hyp _ i hc hs q1 q2
+  | negSent _ i g hu hc hs q1 q2 => rw [lstep_toS q1]; exact next_negSent _ i g hu hc hs q1 q2
+  | negErr _ i g hu hc hs q1 q2 => rw [lstep_toC q2]; exact next_negErr _ i g hu hc hs q1 q2
+  | rej0 _ h0 hc hb hs ha q1 q2 => rw [lstep_toC q2]; exact next_rej0 hyp _ h0 hc hb hs ha q1 q2
+  | auth1 _ h0 hc hb hs ha q1 q2 => rw [lstep_toS q1]; exact next_auth1 hyp _ h0 hc hb hs ha q1 q2
+  | ckChal _ h0 m w1 c1 ho hc hb hs ha q1 q2 => rw [lstep_toC q2]; exact next_ckChal hyp _ h0 m w1 c1 ho hc hb hs ha q1 q2
+  | ckResp _ h0 m w1 c1 ho hc hb hs ha q1 q2 => rw [lstep_toS q1]; exact next_ckResp hyp _ h0 m w1 c1 ho hc hb hs ha q1 q2
+  | rej1 _ h0 h1 hc hb hs ha q1 q2 => rw [lstep_toC q2]; exact next_rej1 _ h0 h1 hc hb hs ha q1 q2
+  | auth2 _ h0 h1 hc hb hs ha q1 q2 => rw [lstep_toS q1]; exact next_auth2 _ h0 h1 hc hb hs ha q1 q2
 
 end Txdbus.Handshake2
